@@ -1,8 +1,9 @@
 (* C03 — responses echo the request header and question.
    [handle_message] is the model of Server::handle_message (Model/Server.v); [answer] (query
    answering, C05) and [verify] (TSIG HMAC verification, C10/C11) are universally quantified. *)
+From QV Require Import Model.ZoneTree Model.Query Model.MsgWriter Model.QueryW Proofs.ServerEchoWP.
 From QV Require Import Base.ListX Model.NameWire Model.Reader Model.RdataLite Model.Server
-  Spec.NameWireS Spec.NameRepr Spec.ReaderS Proofs.ReaderP Proofs.ServerP.
+  Spec.NameWireS Spec.NameRepr Spec.ReaderS Spec.MsgWalkS Proofs.ReaderP Proofs.ServerP Proofs.ServerEchoP.
 
 (* No response at all exactly for: fewer than 12 octets, QR set, or more than one question. *)
 Theorem c03_silent_iff : forall answer verify cfg req, wf_cfg cfg -> wf_bytes req ->
@@ -43,6 +44,59 @@ Proof.
   eexists. split; [vm_compute; reflexivity|]. repeat split.
 Qed.
 
+(* ---- the octet-for-octet echo, as theorems over the BYTE-LEVEL composition -------------------------
+   [respond_w] / [respond_plain] (Model/QueryW.v) are what the server-level runner executes for a
+   response: Writer::new, id/QR/opcode/RD, add_question, EDNS reservation and limit, then either the
+   whole query answering through the Writer interface or a bare RCODE, then finish — on the Writer
+   model of C12.  [qname_uncompressed req]: the label sequence at offset 12 of the request ends in
+   the root label (no compression pointer). *)
+
+(* request side (C14/C15): the question the Reader returns, re-serialised (name wire form, case as
+   received, big-endian QTYPE and QCLASS), IS the request's octets [12, end of the question) *)
+Theorem c03_question_octets : forall req r1 q, wf_bytes req -> 12 <= length req ->
+  read_question (r0_of req) = (r1, Ok q) -> qname_uncompressed req ->
+  exists ls, Reader.q_name q = name_of ls /\ labels_of (Reader.q_name q) = ls /\
+    r_cursor r1 = 12 + length (nm_wire ls ++ be16 (Reader.q_type q) ++ be16 (Reader.q_class q)) /\
+    slice req 12 (r_cursor r1) = nm_wire ls ++ be16 (Reader.q_type q) ++ be16 (Reader.q_class q).
+Proof. exact question_octets. Qed.
+
+(* writer side (C12): whatever query answering adds afterwards, the finished message carries the first
+   question uncompressed, case preserved, at offset 12 *)
+Theorem c03_writer_keeps_question : forall negttl buf tcp id rd qname qtype qclass edns limit z len b,
+  respond_w negttl buf tcp id rd qname qtype qclass edns limit z = Some (len, b) ->
+  let Q := nm_wire qname ++ be16 qtype ++ be16 qclass in
+  slice b 12 (12 + length Q) = Q /\ 12 + length Q <= len.
+Proof. exact respond_w_question. Qed.
+
+(* the composition: response octets [12, end of question) = request octets [12, end of question),
+   for every response the server model sends with a question, answered (respond_w) or not (respond_plain) *)
+Theorem c03_question_echo_octets : forall answer verify cfg req w q, wf_cfg cfg -> wf_bytes req ->
+  handle_message answer verify cfg req = Ok (Some w) -> Server.w_question w = Some q -> qname_uncompressed req ->
+  exists r1, read_question (r0_of req) = (r1, Ok q) /\ 12 <= length req /\
+    (forall negttl buf tcp id rd edns limit z len b,
+       respond_w negttl buf tcp id rd (labels_of (Reader.q_name q)) (Reader.q_type q) (Reader.q_class q) edns limit z = Some (len, b) ->
+       r_cursor r1 <= len /\ slice b 12 (r_cursor r1) = slice req 12 (r_cursor r1)) /\
+    (forall buf tcp id rd edns limit rcode len b,
+       respond_plain buf tcp id rd (labels_of (Reader.q_name q)) (Reader.q_type q) (Reader.q_class q) edns limit rcode = Some (len, b) ->
+       r_cursor r1 <= len /\ slice b 12 (r_cursor r1) = slice req 12 (r_cursor r1)).
+Proof. exact handle_message_echo. Qed.
+
+(* Non-vacuity: wWw.a. IN A, mixed case, REFUSED: the 11 question octets come back unchanged *)
+Example c03_echo_example :
+  let req := [18;52; 1;0; 0;1; 0;0; 0;0; 0;0; 3;119;87;119;1;97;0; 0;1; 0;1]%N in
+  wf_bytes req /\ qname_uncompressed req /\
+  exists r1 q len b, read_question (r0_of req) = (r1, Ok q) /\ r_cursor r1 = 23 /\
+    respond_plain (repeat 0%N 64) false 4660 true (labels_of (Reader.q_name q)) (Reader.q_type q) (Reader.q_class q) None 512 5
+      = Some (len, b) /\ len = 23 /\ slice b 12 23 = slice req 12 23.
+Proof.
+  cbv zeta. split; [apply wf_bytesb_spec; reflexivity|]. split; [exists 19; vm_compute; reflexivity|].
+  do 4 eexists. split; [vm_compute; reflexivity|]. split; [reflexivity|]. split; [vm_compute; reflexivity|].
+  split; reflexivity.
+Qed.
+
 Print Assumptions c03_silent_iff.
 Print Assumptions c03_header_and_question.
 Print Assumptions c03_question_is_spec.
+Print Assumptions c03_question_octets.
+Print Assumptions c03_writer_keeps_question.
+Print Assumptions c03_question_echo_octets.
